@@ -6,7 +6,7 @@ from .engine import Case, Prop
 
 
 class C07(Prop):
-    """Theorem C07_fromStr: for every well-formed literal of any length the model of FromStr returns exactly the rational it spells (induction over digit lists); the model is tied to the real parser by exhaustive short literals + random long ones, and the implementation is checked directly against the independent literal spec."""
+    """Theorem C07_fromStr: for every well-formed literal of any length the model of FromStr returns exactly the rational it spells (induction over digit lists); the model is tied to the real parser by exhaustive short literals + random long ones, and the implementation is checked directly against the independent literal spec. End to end: `C07_query` (Props/C07Query.lean) — the literal written as a query (lexer, parser, evaluator) yields exactly the value the reader theorem gives."""
     id = "C07"
     module = "Anything.Props.C07"
     extra_modules = ["Anything.Props.C07Query"]
